@@ -169,5 +169,62 @@ OutputCount == taint = "" => out = Cardinality({i \in 1..Len(hist) : hist[i].vio
                    + Cardinality({i \in 1..Len(hist) : hist[i].viol = {} /\ hist[i].u.k = "FN"
                                      /\ hist[i].out > (IF i = 1 THEN 0 ELSE hist[i-1].out)})
 
+(* ========================================================================================== *)
+(* Declarative twin: conformance of a whole history stated position by position, without the  *)
+(* machine state.  TLC checks (invariant MachineMatchesDeclarative) that the incremental       *)
+(* machine above and this definition agree on every reachable history.                         *)
+(* ========================================================================================== *)
+H == [i \in 1..Len(hist) |-> hist[i].u]
+PicIdx(h) == {i \in 1..Len(h) : h[i].k \in {"PIC", "F0"}}
+PicsBefore(h, i) == Cardinality({j \in PicIdx(h) : j < i})
+FirstParity(h) == LET i == CHOOSE j \in PicIdx(h) : \A m \in PicIdx(h) : j <= m IN
+                  IF h[i].pn \in {"a1", "am1"} THEN 1 ELSE 0
+RECURSIVE SumCnt(_, _, _)
+SumCnt(h, lo, hi) == IF lo > hi THEN 0
+                     ELSE (IF h[hi].k = "FN" THEN h[hi].cnt ELSE 0) + SumCnt(h, lo, hi - 1)
+\* slices of the fragmented picture in progress still missing just before position i
+Open(h, i) == LET js == {j \in 1..(i-1) : h[j].k = "F0"} IN
+              IF js = {} THEN 0
+              ELSE LET j == CHOOSE x \in js : \A y \in js : y <= x IN
+                   IF \E m \in (j+1)..(i-1) : h[m].k = "PIC" THEN 0 ELSE Max(0, S - SumCnt(h, j + 1, i - 1))
+RECURSIVE LvlRun(_, _, _)
+LvlRun(pat, h, n) == IF n = 0 THEN 0
+                     ELSE LET q == LvlRun(pat, h, n - 1) IN
+                          IF q = DEAD THEN DEAD ELSE LvlStep(pat, q, Sym(h[n]))
+
+PosOK(c, h, i) ==
+  LET u == h[i] n == Len(h) IN
+  /\ u.k \notin {"BADPFX", "BADCODE"}
+  /\ (i = 1 => u.k = "SH")
+  /\ (i < n => u.k # "EOS")                                        \* nothing follows end_of_sequence
+  /\ u.npo # "inside" /\ (i < n => u.npo # "bad")                  \* next offset: absent (0) or the true distance
+  /\ (u.k = "EOS" => u.npo = "zero") /\ (u.k \in {"SH", "PAD", "AUX"} => u.npo # "zero")
+  /\ u.ppo = "ok"
+  /\ (u.k = "SH" /\ i > 1 => u.same)                               \* repeated headers byte-identical
+  /\ (IsPicLike(u) => u.prof = c.prof)                              \* parse code permitted by the profile
+  /\ (u.k \in {"F0", "FN"} => c.ver >= 3)                          \* ... and by the major version
+  /\ (u.k \in {"PIC", "F0"} /\ PicsBefore(h, i) > 0 => u.pn = "next")               \* consecutive mod 2^32
+  /\ (u.k \in {"PIC", "F0"} /\ c.fields /\ PicsBefore(h, i) % 2 = 0
+         => (FirstParity(h) + PicsBefore(h, i)) % 2 = 0)                              \* even first field
+  /\ (u.k \in {"PIC", "F0"} => Open(h, i) = 0)                     \* no interleaving / restart
+  /\ (u.k = "FN" => Open(h, i) # 0 /\ u.pnsame /\ u.cnt <= Open(h, i) /\ u.off = "ok")
+
+PrefixOK(c, h) == /\ \A i \in 1..Len(h) : PosOK(c, h, i)
+                  /\ (Len(h) > 0 => c.ver >= BaseVer(c))            \* the profile needs this version
+                  /\ (c.pat # "any" => LvlRun(c.pat, h, Len(h)) # DEAD)
+EndOK(c, h) == LET n == Len(h) np_ == Cardinality(PicIdx(h)) IN
+  /\ n > 0 /\ h[n].k = "EOS"
+  /\ Open(h, n) = 0                                                 \* fragmented picture complete
+  /\ (c.fields => np_ % 2 = 0)                                      \* whole frames
+  /\ LvlAccepting(c.pat, LvlRun(c.pat, h, n))
+  /\ ((np_ = 0 /\ c.ver = 3) \/ c.ver = Max(BaseVer(c), IF \E i \in 1..n : h[i].k \in {"F0", "FN"} THEN 3 ELSE 1))
+Conformant(c, h) == PrefixOK(c, h) /\ EndOK(c, h)
+
+MachineMatchesDeclarative ==
+  taint = "" =>
+    /\ (verdict = "run"    => PrefixOK(cfg, H) /\ (Len(H) = 0 \/ H[Len(H)].k # "EOS"))
+    /\ (verdict = "accept" => Conformant(cfg, H))
+    /\ (verdict = "reject" => ~(PrefixOK(cfg, H) /\ (H[Len(H)].k = "EOS" => EndOK(cfg, H))))
+
 View == <<cfg, pre, inp, started, lastPN, np, fragRem, fragRecv, lvl, needVer, pend, verdict, taint>>
 =============================================================================
